@@ -1,4 +1,5 @@
 mod c01;
+mod c02;
 mod c04;
 mod c06;
 mod c07;
@@ -94,6 +95,7 @@ fn main() {
       "C14" => c14::replay(&j["case"], j["kind"].as_str().unwrap_or("")),
       "C06" => c06::replay(&j["case"]),
       "C20" => c20::replay(&j["case"]),
+      "C02" => c02::replay(&j["case"], j["kind"].as_str().unwrap_or("")),
       "C04" => c04::replay(&j["case"]),
       "C09" => c09::replay(&j["case"]),
       "C13" => c13::replay(&j["case"]),
@@ -127,6 +129,7 @@ fn main() {
     "C10" => c10::run(tier),
     "C06" => c06::run(tier),
     "C20" => c20::run(tier),
+    "C02" => c02::run(tier),
     "C04" => c04::run(tier),
     "C09" => c09::run(tier),
     "C13" => c13::run(tier),
